@@ -20,6 +20,13 @@ class C02Sketch(Scenario):
         if self.n_gen >= self.cfg["steps"]:
             return None
         self.n_gen += 1
+        if rng.chance(1, 14):
+            # a fresh sketch takes this one's counts by join() and is then used on its own: two live objects
+            return {"op": "lend", "k": rng.below(self.cfg["universe"]), "n": rng.choice((1, 3, 1000)),
+                    "rm": rng.chance(1, 2)}
+        if rng.chance(1, 14):
+            # leave the default query mode and come back to it by one of the documented spellings
+            return {"op": "qmode", "via": rng.choice(("mean", "mean-min")), "back": rng.choice((None, None, "min", "MIN", "default"))}
         if rng.chance(1, 10):
             return {"op": "peek", "k": rng.below(self.cfg["universe"]), "depth": rng.choice((1, 1, 2, 3))}
         if self.cfg.get("big") and rng.chance(1, 4):
@@ -66,17 +73,42 @@ class C02Sketch(Scenario):
             op = "add"
         if op == "add" and sub.total + step["n"] >= 2**31 - 1:
             return "skip"
-        r = sub.apply_op(step)
-        if r == "skip":
-            return "skip"
-        if op == "add":
-            self.ever.add(step["k"])
         o = self.o
-        k0 = step["k"]
-        now = o.check(sub.key(k0))
-        if r != now:
-            raise Violation("return_differs_from_check", f"{sub.name}.{op} returned {r}, check right afterwards says {now}",
-                            sig)
+        r = None
+        if op == "lend":
+            from probables import CountMinSketch
+
+            if sub.total + step["n"] >= 2**31 - 1:
+                return "skip"
+            other = CountMinSketch(width=self.w, depth=self.d, hash_function=self.env.fresh_hf())
+            other.join(o)
+            other.add(sub.key(step["k"]), step["n"])
+            if step.get("rm"):
+                live = sorted(k for k, v in sub.model.items() if v > 0)
+                if live:
+                    other.remove(sub.key(live[0]), sub.model[live[0]])
+            ctx.fault("second_live_object")
+            self.lent = other  # stays alive until the next lend
+        elif op == "qmode":
+            o.query_type = step["via"]
+            if self.w > 1:  # the mean-min query divides by width-1; width 1 is outside every statement
+                o.check(sub.key(0))
+            o.query_type = step["back"]
+            if o.query_type != "min":
+                raise Violation("query_mode_not_reset", f"query_type = {step['back']!r} left the sketch in mode "
+                                                        f"{o.query_type!r}", sig)
+            ctx.fault("query_mode_round_trip")
+        else:
+            r = sub.apply_op(step)
+            if r == "skip":
+                return "skip"
+            if op == "add":
+                self.ever.add(step["k"])
+            k0 = step["k"]
+            now = o.check(sub.key(k0))
+            if r != now:
+                raise Violation("return_differs_from_check", f"{sub.name}.{op} returned {r}, check right afterwards says "
+                                                             f"{now}", sig)
         total = sub.total
         if o.elements_added != total:
             ctx.count("elements_added_off")  # C14's business, only counted here
